@@ -232,8 +232,10 @@ def run(ctx):
             if fail_arm is not None:
                 r1 = [st for (rb, st) in return_values(ch) if rb in cfg.reach_t(ch, fail_arm)]
                 r2 = [st for (rb, st) in return_values(ch) if rb in cfg.reach_t(ch, pass_arm)]
-                ctx.check(bool(r1) and all(is_err_agg(s) for s in r1), P, "missing-fails", "count > 0 ⇒ Err", ch.where(bb))
-                ctx.check(bool(r2) and all(is_ok_agg(s) for s in r2), P, "none-missing-passes", "count == 0 ⇒ Ok", ch.where(bb))
+                from ..common import only_err_returns
+                rs2 = cfg.return_shapes(ch, pass_arm)
+                ctx.check((bool(r1) and all(is_err_agg(s) for s in r1)) or only_err_returns(ch, fail_arm), P, "missing-fails", "count > 0 ⇒ Err", ch.where(bb))
+                ctx.check((bool(r2) and all(is_ok_agg(s) for s in r2)) or (bool(rs2) and all(sh is not None and sh[0] == 0 for _b, sh in rs2)), P, "none-missing-passes", "count == 0 ⇒ Ok", ch.where(bb))
     cr = edit.anchor(ctx, facts, P, edit.COUNT_REDUCE, "CountMissingReferenceIdProcessor::reduce")
     if cr is not None:
         _sum_rule(ctx, cr, P, "check-reduce", "u32", None)
